@@ -1,4 +1,5 @@
 import LentilVerif.Lemmas.Spectrum
+import LentilVerif.Lemmas.SimpsExact
 import LentilVerif.Lemmas.Units
 /-! C15 — integration, binning, crop/trim/pad/append/resample keep the spectrum well-formed.
 All statements are about `Model/Spectrum.lean` (tied to lentil.radiometry.Spectrum by the per-step correspondence). -/
@@ -439,6 +440,39 @@ theorem bin_trapz_exact_linear (s : Spectrum) (a b lo hi : ℚ) (hval : s.value 
             rw [hval]
             exact interpAt_linear a b fl fr s.wave e lo hi hs h2 hlo hhi (hedges e he).1 (hedges e he).2
           rw [this, trapzBins_linear]
+
+/-- Simpson binning is exact for linear spectra on UNIFORM centres (symmetric ends, float centres, no power preservation): if
+the samples lie on the line a·λ + b, the centres have a constant step h and every sample point of the rule lies inside the
+sampled range, bin k is the exact integral ∫ (a·λ + b) dλ over the k-th bin [e_k, e_{k+1}] — the same `exactBins` over the same
+edges as the trapezoid rule (`bin_trapz_exact_linear`). Uniformity is what makes each centre the mid-point of its bin. -/
+theorem bin_simps_exact_linear_uniform (s : Spectrum) (a b lo hi : ℚ) (hval : s.value = s.wave.map fun t => a * t + b)
+    (hs : StrictInc s.wave) (h2 : 2 ≤ s.wave.length) (hlo : s.wave.head? = some lo) (hhi : s.wave.getLast? = some hi)
+    (fl fr h : ℚ) (c : List ℚ) (hu : UniformStep h c) (hpts : ∀ e ∈ simpsPoints true c, lo ≤ e ∧ e ≤ hi) (bins : List ℚ)
+    (hb : bin s true true fl fr none c = .ok bins) : bins = exactBins a b (trapzEdges true c) := by
+  simp only [bin, binRaw, if_true, sample] at hb
+  split at hb
+  · cases hb
+  · rename_i raw hraw
+    split at hraw
+    · cases hraw
+    · split at hraw
+      · cases hraw
+      · rename_i f hf
+        split at hf
+        · cases hf
+        · cases hf; cases hraw; cases hb
+          have : (simpsPoints true c).map (interpAt s.wave s.value fl fr) = (simpsPoints true c).map fun t => a * t + b := by
+            apply List.map_congr_left
+            intro e he
+            rw [hval]
+            exact interpAt_linear a b fl fr s.wave e lo hi hs h2 hlo hhi (hpts e he).1 (hpts e he).2
+          obtain ⟨hm, he⟩ := simpsPoints_uniform h c hu
+          rw [this, simpsBins_linear a b _ hm, he]
+
+/-- non-vacuity of `bin_simps_exact_linear_uniform`: 2λ+1 on [500, 520], centres 503, 506, 509, 512 (step 3) -/
+example : UniformStep 3 [503, 506, 509, 512] ∧ (∀ e ∈ simpsPoints true [503, 506, 509, 512], (500 : ℚ) ≤ e ∧ e ≤ 520) ∧
+    bin ⟨[500, 520], [1001, 1041]⟩ true true 0 0 none [503, 506, 509, 512] = .ok (exactBins 2 1 (trapzEdges true [503, 506, 509, 512])) := by
+  refine ⟨by simp [UniformStep]; norm_num, by decide +kernel, by decide +kernel⟩
 
 /-- exactness PER BIN (the clause "exact for spectra that are linear across each bin"): when the two edges of bin k lie in one
 data segment [x_i, x_{i+1}] of a well-formed spectrum — the interpolant is affine across the bin, whatever the spectrum does
